@@ -52,7 +52,7 @@ MECHANISMS = [
 ]
 REQUIRED_MONITORS = ['wrap_identity_lin', 'wrap_identity_log', 'wrap_in_track', 'l2p_vs_exact', 'svg_wellformed', 'svg_in_viewbox',
                      'svg_in_margins', 'svg_in_track', 'svg_no_point_for_absent', 'svg_points_explained', 'svg_edge_side', 'lis_produces_plot',
-                     'las_produces_plot']
+                     'las_produces_plot', 'plotlogs_directory']
 MIN_NONTRIVIAL = {'quick': 60000, 'thorough': 2000000}
 TIMEOUT_S = {'quick': 400, 'thorough': 3300}
 NSHARDS = 16
@@ -1161,6 +1161,87 @@ def plotlogs_end_to_end(ctx, cap, lis_path, las_path, las_names, table, conf, pr
             check_svg(rec, os.path.join(outdir, sname), 'PlotLogs %s %s' % (kind, sname[-24:]), cap, witness=wit)
 
 
+def plotlogs_directory(ctx, cap):
+    """PlotLogs.PlotLogPasses on a directory of several LIS files from one writer: the same record layout (FILM and PRES tables
+    at the same byte positions) and different content (channels, curves, scales).  Every file gets its own plots, and every
+    plot is checked against the model of its own file - what one file configured must not be applied to the next."""
+    import copy
+    import types
+    from tdv.gen import plotsrc as PS
+    from TotalDepth import PlotLogs
+    rec = ctx.rec
+    rng = ctx.sub_rng('plotlogs-dir')
+    din = _tmp(ctx, 'plotdir_in')
+    dout = _tmp(ctx, 'plotdir_out')
+    os.makedirs(din, exist_ok=True)
+    base = PS.random_plot_spec(rng, nframes=rng.choice([12, 40]))
+    models = {}
+    pool = [b'GR  ', b'SP  ', b'CALI', b'ILD ', b'ILM ', b'RHOB', b'NPHI', b'DT  ', b'TENS', b'X1  ']
+    for i in range(rng.choice([2, 3])):
+        spec = copy.deepcopy(base)
+        if i:
+            # other channels under the same table shapes: every channel (but the reference) and its curves renamed
+            old = [nm for nm in spec['channels'] if nm != b'REF ']
+            new = rng.sample([nm for nm in pool if nm not in old], len(old)) if len(old) <= len(pool) - len(old) else old
+            ren = dict(zip(old, new))
+            spec['channels'] = [ren.get(nm, nm) for nm in spec['channels']]
+            taken = {c['mnem'] for c in spec['curves'] if c['outp'] not in ren}
+            for c in spec['curves']:
+                if c['outp'] in ren:
+                    cands = [ren[c['outp']]] if c['mnem'] == c['outp'] else []
+                    cands += [ren[c['outp']][:3] + ch for ch in (b'B', b'2', b'3', b'4', b'5')]
+                    c['mnem'] = next(x for x in cands if x not in taken)
+                    taken.add(c['mnem'])
+                    c['outp'] = ren[c['outp']]
+                c['trac'] = None
+            if 'shapes' in spec:
+                spec['shapes'] = {ren.get(k, k): v for k, v in spec['shapes'].items()}
+        data, m = PS.lis_plot_file(rng, spec)
+        name = 'w%d.lis' % i
+        with open(os.path.join(din, name), 'wb') as f:
+            f.write(data)
+        models[name] = (m, data)
+    opts = types.SimpleNamespace(recurse=False, keepGoing=True, LgFormat=[], apiHeader=False, LgFormat_min=0, scale=0)
+    rec.mon('plotlogs_directory')
+    wit = {'input': 'LIS directory', 'source': 'PlotLogs.PlotLogPasses', 'files': sorted(models),
+           'channels': {n: [repr(c) for c in m.channels] for n, (m, _) in models.items()}}
+    try:
+        PlotLogs.PlotLogPasses(din, dout, opts)
+    except Exception as e:  # noqa
+        rec.case(('plotlogs-dir', ctx.shard), False, classes=['plot:PlotLogs-directory', 'plot:raised'])
+        if cap['las'] < 16:
+            cap['las'] += 1
+            rec.violation('lis_produces_plot', 'plotlogs-raises', 'PlotLogPasses on a directory of %d LIS files raised %s: %s' % (len(models), type(e).__name__, e),
+                          dict(wit, exception=type(e).__name__, message=str(e)[:300]), exc=e)
+        return
+    made = sorted(os.listdir(dout)) if os.path.isdir(dout) else []
+    ok = True
+    for name, (m, data) in sorted(models.items()):
+        svgs = [f for f in made if f.startswith(name) and f.endswith('.svg')]
+        if not svgs:
+            ok = False
+            if cap['las'] < 16:
+                cap['las'] += 1
+                rec.violation('lis_produces_plot', 'plotlogs-no-plot', 'PlotLogPasses on a directory of %d LIS files of one layout wrote no plot for %s (plots written: %s)' % (
+                    len(models), name, made[:8]), dict(wit, file=name, lis=data[:3000]))
+            continue
+        for sname in svgs:
+            fid = None
+            for ident in m.films:
+                if ident.decode().strip() and sname.rsplit('.svg', 1)[0].endswith(ident.decode().strip()):
+                    fid = ident
+            if fid is None and len(m.films) == 1:
+                fid = next(iter(m.films))
+            absent = {}
+            if fid is not None:
+                for c in m.curves:
+                    if fid in c.films(m):
+                        absent.setdefault(c.outp.strip().decode('ascii'), set()).update(m.absent.get(c.outp, set()))
+            check_svg(rec, os.path.join(dout, sname), 'PlotLogs directory %s' % sname[-28:], cap, model=m if fid is not None else None, film=fid,
+                      ref_name='REF' if fid is not None else None, absent_by_section=absent if fid is not None else None, nframes=len(m.x), witness=dict(wit, file=name))
+    rec.case(('plotlogs-dir', ctx.shard, len(models)), ok, classes=['plot:PlotLogs-directory-of-%d' % len(models)])
+
+
 def run_shard(ctx, p):
     import logging
     import time
@@ -1204,6 +1285,7 @@ def run_shard(ctx, p):
             las_fp, las_names, probe = r
     lis_fp = _tmp(ctx, 'gen0.lis')
     plotlogs_end_to_end(ctx, cap, lis_fp if os.path.exists(lis_fp) else None, las_fp, las_names or [], table, conf, probe or {})
+    plotlogs_directory(ctx, cap)
     rec.add('seconds_plots', round(time.time() - t0, 2))
 
 
